@@ -19,7 +19,7 @@ MANIFEST = dict(
     technique="TLA+ spec ParseEvents.tla model-checked by TLC (all token-kind strings up to a bound x all primitive sequences); the "
               "primitive logs of real parses validated against ParseEventsTrace.tla (impl->spec); structural tree checks on every input",
     text="The event protocol is explored exhaustively for strings of up to 4 (thorough 5) tokens over six token kinds; every real "
-         "parse of the sampled corpus (quick ~600 texts incl. mutants, thorough the whole corpus x 3 line-ending styles) must keep "
+         "parse of the sampled corpus (quick ~700 texts incl. mutants; thorough the whole corpus; CRLF / CR / mixed line endings) and of every token soup must keep "
          "the lossless-tree invariants, and the recorded primitives of a capped batch (60 k, thorough 600 k) must be exactly the "
          "steps the faithful specification allows (trivia-adoption counts recomputed by the spec from the token kinds).",
     note="Trusted: TLC; the abstraction of tokens to six kinds (code / whitespace / newline / line comment / block comment with or "
@@ -43,7 +43,7 @@ def make_inputs(ctx, nfiles, nmut):
             continue
         if len(text) > 40000:
             continue
-        vs = text_mutants.line_endings(text) if i % 3 == 0 else []
+        vs = text_mutants.line_endings(text, rng) if i % 3 == 0 else []
         vs += text_mutants.mutants(text, rng, nmut)
         for k, (tag, t) in enumerate(vs):
             p = os.path.join(vdir, f"{i}_{k}_{tag}.dora")
@@ -104,6 +104,12 @@ def run(ctx):
         else:
             ctx.violation(f"recorded parser primitives violate the event protocol: {msg}", {"chunk": p}, key="protocol")
     ctx.add("traces_validated_against_impl", nfiles_validated)
+    # token soups (every sequence of <= k token texts x 8 contexts x {blank-separated, line breaks of mixed styles}): tree checks
+    recs = harness_json([VH, "soup", 2 if ctx.quick else 3], timeout=3000)
+    ctx.add("soup_texts_parsed", recs[-1]["inputs"])
+    for m in recs[:-1]:
+        if m["what"].startswith("tree"):
+            ctx.violation(f"token soup: {m['what']} ({m['count']} inputs), e.g. {m['example']!r}", m, key="soup-tree")
     # negative control: one corrupted counter must be rejected
     if chunks:
         ch = list(chunks[0][:4000])
